@@ -384,6 +384,10 @@ func (i *In) Evaluation(
 		}
 
 		if nextT == nil || nextT.IsNewLineIdentifier() {
+			// the pattern line is over: an if/unless/while opening the
+			// branch body is a statement, not a modifier of the pattern
+			p.EndParsingExpression()
+
 			break
 		}
 
